@@ -1191,3 +1191,7 @@ package internal
 //@   property C03 C04 C09 C19
 //@   pure
 //@   loop 0 invariant forall k string :: has(out.VaryResolved, k) ==> validUTF8(k) && validUTF8(get(out.VaryResolved, k))
+//@   loop 0 invariant out.ResponseID == jsonEnc(r.ResponseID) && out.Vary == jsonEnc(r.Vary) && out.ReceivedAt == r.ReceivedAt && out.VaryResolved != nil
+//@   loop 0 invariant forall k string :: visited(k) ==> has(out.VaryResolved, jsonEnc(k))
+//@   callsite json.Marshal :: typeis(v, responseRefJSON) && as(v, responseRefJSON).ResponseID == jsonEnc(r.ResponseID) && as(v, responseRefJSON).Vary == jsonEnc(r.Vary) && as(v, responseRefJSON).ReceivedAt == r.ReceivedAt     # name: what-is-written-is-the-encoded-reference
+//@   callsite json.Marshal :: forall k string :: has(r.VaryResolved, k) ==> has(as(v, responseRefJSON).VaryResolved, jsonEnc(k))                                                                                                      # name: every-selecting-field-is-written
